@@ -26,7 +26,16 @@ func (e *executionContext) AppendTransactionLog(ctx context.Context, logBuilder 
 	return e.appendLog(ctx, true, logBuilder)
 }
 
-func (e *executionContext) appendLog(ctx context.Context, allocateTXID bool, logBuilder func(txID *big.Int) *ledger.Log) (*ledger.ChainedLog, chan struct{}, error) {
+func (e *executionContext) appendLog(ctx context.Context, allocateTXID bool, logComputer func(txID *big.Int) *ledger.Log) (*ledger.ChainedLog, chan struct{}, error) {
+	// Whatever the kind of write, the idempotency key of the request is stored on the log:
+	// this is what ReadLogWithIdempotencyKey looks for when the request is replayed.
+	logBuilder := func(txID *big.Int) *ledger.Log {
+		log := logComputer(txID)
+		if e.parameters.IdempotencyKey != "" {
+			log = log.WithIdempotencyKey(e.parameters.IdempotencyKey)
+		}
+		return log
+	}
 	if e.parameters.DryRun {
 		ret := make(chan struct{})
 		close(ret)
